@@ -78,6 +78,53 @@ Proof.
   subst i2. f_equal. apply IH; try assumption. lia.
 Qed.
 
+(* ---- row-major numbering is a bijection tuples <-> [0, product) ---------------------------- *)
+(* the index tuple of element number a: the inverse of row_major *)
+Fixpoint unrank (exts : list Z) (a : Z) : list Z :=
+  match exts with
+  | [] => []
+  | _ :: ns => a / prodZ ns :: unrank ns (a mod prodZ ns)
+  end.
+
+Lemma unrank_spec : forall exts a,
+  Forall (fun n => 0 < n) exts -> 0 <= a < prodZ exts ->
+  in_range exts (unrank exts a) /\ row_major exts (unrank exts a) = a.
+Proof.
+  induction exts as [|n ns IH]; cbn; intros a H Ha.
+  - split; [exact I|lia].
+  - inversion H as [|? ? Hn Hns]; subst.
+    pose proof (prodZ_pos ns Hns) as Hp.
+    pose proof (Z.mod_pos_bound a (prodZ ns) Hp) as Hm.
+    destruct (IH (a mod prodZ ns) Hns Hm) as [IR RM].
+    split.
+    + split; [|exact IR]. split.
+      * apply Z.div_pos; lia.
+      * apply Z.div_lt_upper_bound; lia.
+    + rewrite RM. pose proof (Z.div_mod a (prodZ ns)). lia.
+Qed.
+
+Lemma row_major_surjective : forall exts a,
+  Forall (fun n => 0 < n) exts -> 0 <= a < prodZ exts ->
+  exists idx, in_range exts idx /\ row_major exts idx = a.
+Proof. intros exts a H Ha. exists (unrank exts a). apply unrank_spec; assumption. Qed.
+
+Lemma in_range_pos : forall exts idx, in_range exts idx -> Forall (fun n => 0 < n) exts.
+Proof.
+  induction exts as [|n ns IH]; destruct idx as [|i is]; cbn; intros H; try tauto; constructor.
+  - lia.
+  - apply (IH is); tauto.
+Qed.
+
+Lemma unrank_row_major : forall exts idx,
+  in_range exts idx -> unrank exts (row_major exts idx) = idx.
+Proof.
+  intros exts idx H.
+  pose proof (in_range_pos _ _ H) as Hp.
+  pose proof (row_major_bound exts idx H) as B.
+  destruct (unrank_spec exts (row_major exts idx) Hp B) as [IR RM].
+  apply (row_major_injective exts); assumption.
+Qed.
+
 (* ---- object_arr_dim_mult ---------------------------------------------------------------- *)
 (* the dimension vector a correct implementation would build: (n_k, prod_{j>k} n_j) *)
 Fixpoint spec_dv (exts : list Z) : dimv :=
